@@ -279,6 +279,13 @@ func c13Tiny(r *Run, st *c13Stats) error {
 		cases[i].meta.Family = "operand-matrix"
 		cases = append(cases, c)
 	}
+	// … and once more as an IMPORTED file (what an imported file may contain at top level
+	// goes through other code than the main file): alternating targets
+	for k, p := range gen.OperandMatrix() {
+		spec := simrt.WorldSpec{Files: []simrt.FileSpec{{Path: "/sim/m/main.tsh", Data: []byte("import l \"lib/l.tsh\"\nprint(1)\n")}, {Path: "/sim/m/lib/l.tsh", Data: []byte(p)}, {Path: "/sim/x/tsh", Data: []byte("ELF")}},
+			Cwd: "/sim/m", Exe: "/sim/x/tsh", MapMode: "canonical", Budgets: &b}
+		cases = append(cases, c13Case{c: simrt.Case{World: spec, Path: "/sim/m/main.tsh", Target: []string{"bash", "batch"}[k%2]}, meta: c13Meta{Shape: "chain", Corrupt: "enumerated-imported", Family: "operand-matrix", NFiles: 2}})
+	}
 	_, err := c13Exec(r, st, cases)
 	st.tinyInputs = nTiny
 	st.matrixInputs = len(gen.OperandMatrix())
@@ -294,7 +301,7 @@ type c13Case struct {
 
 func c13Round(r *Run, rng *gen.Rng, st *c13Stats, corpus []string, roundSize, sweepN int) error {
 	b := c13Budgets()
-	mounts := []string{"/sim/m", "/sim/m", "/w/my proj", "/a/b/c/d", "/m"}
+	mounts := []string{"/sim/m", "/sim/m", "/w/my proj", "/a/b/c/d", "/m", "/home/u/.dotfiles/p", "/w/proj-1.2/src"}
 	exes := []string{"/sim/x", "/opt/tsh/bin", "/sim/m/bin"}
 	mk := func(gw *gen.GenWorld, family, corrupt string) c13Case {
 		mount, exe := rng.Pick(mounts), rng.Pick(exes)
@@ -356,6 +363,27 @@ func c13Round(r *Run, rng *gen.Rng, st *c13Stats, corpus []string, roundSize, sw
 			}
 			sc := mk(sw, "stress", desc)
 			cases = append(cases, sc)
+		}
+		// many imports: a main file importing 10-40 small files, or one file under many aliases
+		if rng.Chance(3) {
+			mw := &gen.GenWorld{Main: "main.tsh", Shape: "many-imports"}
+			n := rng.Pick2([]int{10, 20, 40})
+			var hdr, body strings.Builder
+			hdr.WriteString("import (\n")
+			same := rng.Chance(40)
+			for k := 0; k < n; k++ {
+				f := fmt.Sprintf("lib/m%d.tsh", k)
+				if same {
+					f = "lib/m0.tsh"
+				}
+				mw.Set(f, []byte(fmt.Sprintf("func F%d() int {\n\treturn %d\n}\n", map[bool]int{true: 0, false: k}[same], k)))
+				fmt.Fprintf(&hdr, "\ta%d %q\n", k, f)
+				fmt.Fprintf(&body, "print(a%d.F%d())\n", k, map[bool]int{true: 0, false: k}[same])
+			}
+			hdr.WriteString(")\n")
+			mw.Set("main.tsh", []byte(hdr.String()+body.String()))
+			mc := mk(mw, "stress", fmt.Sprintf("stress:many-imports/%d same=%v", n, same))
+			cases = append(cases, mc)
 		}
 		// std library variants: the program imports a std library, the installation is odd
 		if rng.Chance(6) {
